@@ -3,7 +3,7 @@ CONTRACT_MODULES = ['contracts.encoding', 'contracts.transactions']
 def _full():
     import contracts.transactions as t
     return list(t.FULL_CASES)
-CONTRACTS = _full() + ['bitcoinlib.transactions.Transaction.raw[full-legacy-any-count]'] + ['bitcoinlib.encoding.int_to_varbyteint', 'bitcoinlib.encoding.varstr', 'bitcoinlib.encoding.varbyteint_to_int',
+CONTRACTS = _full() + ['bitcoinlib.transactions.Transaction.raw[full-legacy-any-count]', 'bitcoinlib.transactions.Transaction.raw[full-segwit-any-count]'] + ['bitcoinlib.encoding.int_to_varbyteint', 'bitcoinlib.encoding.varstr', 'bitcoinlib.encoding.varbyteint_to_int',
              'bitcoinlib.encoding.read_varbyteint', 'bitcoinlib.encoding.read_varbyteint_return']
 LEVEL = 'proof'
 LEVEL_TEXT = ('SERIALISATION proved: Transaction.raw() equals the wire format (BIP144 for segwit) for legacy and segwit transactions with 1..2 inputs, '
